@@ -117,6 +117,8 @@ class Stale:
                             return derived_fields[n['q']], True
                         if self.is_builder_fn(fn) and n['q'] == BU + 'm_buffer':
                             return 'this', derived
+                        if n['q'] == B + 'm_data':
+                            return 'this', True
                         return key, derived
                     nid = n['base']
                 else:
@@ -335,55 +337,73 @@ class Stale:
                     names[n['d']] = n['name']
             parent = fn.parent_map()
 
+            # state: set of stale variable decl ids (monotone); the relocation that made a use stale is found afterwards
             def transfer(st, n):
                 nid = n['id']
                 if nid in reloc_at:
-                    add = set()
-                    for d, c in derived.items():
-                        if c.startswith('param:'):
-                            add.add((d, nid))  # a parameter pointer is stale w.r.t. any relocation (resolved at call sites)
-                        elif c in reloc_at[nid]:
-                            add.add((d, nid))
+                    add = [d for d, c in derived.items() if c.startswith('param:') or c in reloc_at[nid]]
                     if add:
-                        # keep only the first relocation per variable for reporting
-                        have = {d for (d, _r) in st}
-                        st = st | frozenset((d, r) for (d, r) in add if d not in have)
+                        st = st | frozenset(add)
                 k = n.get('k')
                 if k == 'assign' and n['op'] == '=':
                     l = fn.sn(n['lhs'])
-                    if l is not None and l.get('k') == 'var':
-                        st = frozenset((d, r) for (d, r) in st if d != l['d'])
+                    if l is not None and l.get('k') == 'var' and l['d'] in st:
+                        st = st - {l['d']}
                 elif k == 'decl':
                     for v in n['vars']:
-                        st = frozenset((d, r) for (d, r) in st if d != v['d'])
+                        if v['d'] in st:
+                            st = st - {v['d']}
                 return st
 
             before = forward_may(fn, transfer)
             seen = set()
+
+            def culprit(use, d):
+                """a relocation site of d's class from which `use` is reachable without re-assignment of d"""
+                c = derived[d]
+                for (rid, rc) in reloc_sites:
+                    if not (c.startswith('param:') or rc == c):
+                        continue
+
+                    def kill(e):
+                        x = nodes[e]
+                        if x.get('k') == 'assign' and x['op'] == '=':
+                            l = fn.sn(x['lhs'])
+                            return l is not None and l.get('k') == 'var' and l['d'] == d
+                        if x.get('k') == 'decl':
+                            return any(v['d'] == d for v in x['vars'])
+                        return False
+                    if path_search(fn, rid, lambda e: e == use, lambda e: not isinstance(e, tuple) and kill(e)) is not None:
+                        return rid
+                return None
+
             for b in fn.blocks.values():
                 for e in b['elems']:
                     n = nodes[e]
                     if n.get('k') != 'var' or n['d'] not in derived:
                         continue
                     st = before.get(e, frozenset())
-                    hits = [(d, r) for (d, r) in st if d == n['d']]
-                    if not hits:
+                    d = n['d']
+                    if d not in st:
                         continue
                     # assignment target is a kill, not a use
                     p = parent.get(e)
                     pn = nodes.get(p) if p is not None else None
                     if pn is not None and pn.get('k') == 'assign' and pn['op'] == '=' and fn.strip(pn['lhs']) == e:
                         continue
-                    d, r = hits[0]
                     c = derived[d]
                     if c.startswith('param:'):
-                        # which root of this function was relocated at r?
-                        for cr in reloc_at[r]:
-                            info['param_after'].add((pidx.get(d), cr, e, r))
+                        r = culprit(e, d)
+                        if r is not None:
+                            for cr in reloc_at[r]:
+                                info['param_after'].add((pidx.get(d), cr, e, r))
                         continue
-                    if (d, r) in seen:
+                    if d in seen:
                         continue
-                    seen.add((d, r))
+                    r = culprit(e, d)
+                    if r is None:
+                        continue
+                    seen.add(d)
                     info['reports'].append((e, names.get(d, '?'), r))
         self._info[key] = info
         return info
@@ -458,11 +478,14 @@ class Stale:
                                   % (g.q, g.loc(use), g.expr(r)[:60]))
         return n_fn
 
-    # ------------------------------------------------------------------ rule F
+    # ------------------------------------------------------------------ rule F (and W)
     def rule_fields(self, R, records, rule='STALE-F'):
-        """Pointer-typed members assigned from a derivation on the object's own storage."""
+        """Pointer-typed members that hold a derivation of the object's own relocatable storage (Buffer behind a builder,
+        std::string / std::vector sibling member).  Typestate of the member per method: D (derived, fresh), S (stale),
+        N (not a derivation: null / foreign).  Every method starts with D (another method may have set it), a relocating
+        call on the storage turns D into S, an assignment from a derivation gives D, any other assignment gives N.
+        Violation: some method can return normally with the member in state S while some method dereferences it."""
         fb = self.fb
-        summ = self.summaries()
         count = 0
         for rec in records:
             ptr_fields = [f for f in rec.fields if f.get('ptr') and not f['tC'].startswith('osmium::memory::Buffer') and
@@ -472,80 +495,124 @@ class Stale:
             methods = [f for f in fb.functions if f.cls == rec.q and f.has_cfg and not f.is_lambda]
             for fld in ptr_fields:
                 fq = fld['q']
-                # methods that assign the field from a derived expression
-                assigns = []
+                # class of storage the member is derived from (from any assignment / ctor initialiser)
+                storage = None
                 for m in methods:
                     info = self.analyse(m)
                     for n in m.all_nodes():
-                        rhs = None
-                        if n.get('k') == 'assign' and n['op'] == '=':
-                            l = m.sn(n['lhs'])
-                            if l is not None and l.get('k') == 'member' and l.get('q') == fq and m.is_this_member(n['lhs']):
-                                rhs = n['rhs']
-                        elif n.get('k') == 'init' and n.get('q') == fq:
-                            rhs = n.get('init')
+                        rhs = self._field_assign_rhs(m, n, fq)
                         if rhs is None:
                             continue
-                        root, d = self.walk(m, rhs, info['derived'])
+                        dflds = {x['q']: storage for x in ptr_fields if storage} if storage else None
+                        root, d = self.walk(m, rhs, info['derived'], dflds)
                         if d and root is not None:
                             c = root if root in info['derived'].values() else info['cls'](root)
-                            assigns.append((m, n, c))
-                if not assigns:
+                            if c is not None and (c == 'this' or c.startswith('field:')):
+                                storage = c
+                if storage is None:
                     continue
                 count += 1
                 key = '%s::%s' % (rec.q, fld['name'])
-                # is the field possibly stale at an exit of an assigning method?
                 stale_exit = None
-                for (m, n, c) in assigns:
+                for m in methods:
+                    if m.kind == 'dtor':
+                        continue
                     info = self.analyse(m)
-                    relocs = {nid for (nid, rc) in info['reloc_sites'] if rc == c}
+                    relocs = {nid for (nid, rc) in info['reloc_sites'] if rc == storage}
                     if not relocs:
                         continue
-
-                    def is_reassign(e, m=m):
-                        x = m.nodes[e]
-                        if x.get('k') == 'assign' and x['op'] == '=':
-                            l = m.sn(x['lhs'])
-                            return l is not None and l.get('k') == 'member' and l.get('q') == fq
-                        return False
-                    for r in relocs:
-                        # path: assignment -> relocation -> exit without re-assignment
-                        w1 = path_search(m, n['id'], lambda e: e == r, lambda e: not isinstance(e, tuple) and is_reassign(e))
-                        if w1 is None:
-                            continue
-                        w2 = path_search(m, r, lambda e: isinstance(e, tuple) and e[0] == 'exit',
-                                         lambda e: not isinstance(e, tuple) and is_reassign(e))
-                        if w2 is not None:
-                            stale_exit = (m, n, r)
-                            break
-                    if stale_exit:
+                    w = self._stale_at_exit(m, fq, relocs, info, storage, entry_state='N' if m.kind == 'ctor' else 'D')
+                    if w is not None:
+                        stale_exit = (m, w)
                         break
+                site = '%s:%d' % (rec.file, fld.get('l', rec.line))
                 if stale_exit is None:
-                    R.ok(rule, key, '%s:%d' % (rec.file, fld.get('l', rec.line)), 'assigned from a derivation; re-derived after every relocation before exit')
+                    R.ok(rule, key, site, 'derived from %s; re-derived (or cleared) after every relocation before each normal exit' % storage)
                     continue
-                # does another method (or the same) dereference the field?
-                derefs = []
-                for m in methods:
-                    pm = m.parent_map()
-                    for n in m.all_nodes():
-                        if n.get('k') == 'member' and n.get('q') == fq and n.get('field'):
-                            p = pm.get(n['id'])
-                            # climb through casts
-                            while p is not None and m.nodes[p].get('k') in ('icast', 'wrap', 'cast'):
-                                p = pm.get(p)
-                            pn = m.nodes.get(p) if p is not None else None
-                            if pn is None:
-                                continue
-                            if (pn.get('k') == 'unop' and pn['op'] == '*') or (pn.get('k') == 'member' and pn.get('arrow')) or \
-                                    (pn.get('k') == 'call' and pn.get('arrow')) or pn.get('k') == 'index':
-                                derefs.append((m, n))
-                (m, n, r) = stale_exit
+                derefs = self._field_derefs(methods, fq)
+                (m, r) = stale_exit
                 if derefs:
                     dm, dn = derefs[0]
-                    R.bad(rule, key, m.loc(n['id']),
-                          'member %s holds a pointer into relocatable storage taken in %s; %s (%s) may relocate that storage before the method '
-                          'returns, and %s dereferences the member later (%s)'
-                          % (fld['name'], m.q, m.expr(r)[:70], m.loc(r), dm.q, dm.loc(dn['id'])))
+                    R.bad(rule, key, m.loc(r),
+                          'member %s points into relocatable storage (%s); in %s the call %s may relocate that storage and a normal exit is '
+                          'reachable without re-deriving the member, which %s dereferences later (%s)'
+                          % (fld['name'], storage.replace('field:', ''), m.q, m.expr(r)[:70], dm.q, dm.loc(dn['id'])))
                 else:
-                    R.ok(rule, key, m.loc(n['id']), 'possibly stale at exit but never dereferenced')
+                    R.ok(rule, key, site, 'possibly stale at exit but never dereferenced')
         return count
+
+    def _field_assign_rhs(self, m, n, fq):
+        if n.get('k') == 'assign' and n['op'] == '=':
+            l = m.sn(n['lhs'])
+            if l is not None and l.get('k') == 'member' and l.get('q') == fq and m.is_this_member(n['lhs']):
+                return n['rhs']
+        elif n.get('k') == 'init' and n.get('q') == fq:
+            return n.get('init')
+        return None
+
+    def _stale_at_exit(self, m, fq, relocs, info, storage, entry_state):
+        """Returns a relocation node id from which a normal exit is reachable with the member still stale, else None."""
+        nodes = m.nodes
+
+        def assign_kind(n):
+            rhs = self._field_assign_rhs(m, n, fq)
+            if rhs is None:
+                return None
+            root, d = self.walk(m, rhs, info['derived'], {fq: storage})
+            if d and root is not None:
+                c = root if root in info['derived'].values() else info['cls'](root)
+                if c == storage:
+                    return 'D'
+            return 'N'
+
+        akind = {}
+        for n in m.all_nodes():
+            k = assign_kind(n)
+            if k is not None:
+                akind[n['id']] = k
+
+        def transfer(st, n):
+            nid = n['id']
+            if nid in akind:
+                return frozenset({akind[nid]})
+            if nid in relocs and 'D' in st:
+                st = (st - {'D'}) | {'S', ('r', nid)}
+            return st
+
+        before = forward_may(m, transfer, init=frozenset({entry_state}))
+        # normal exits: return statements and fall-off-the-end; exclude paths that end in a throw
+        for b in m.blocks.values():
+            if m.exit not in m.succs(b['id']):
+                continue
+            elems = b['elems']
+            if any(nodes[e].get('k') == 'throw' for e in elems) or b.get('noreturn'):
+                continue
+            st = before.get(('out', b['id']))
+            if st and 'S' in st:
+                rs = [x[1] for x in st if isinstance(x, tuple)]
+                return rs[0] if rs else next(iter(relocs))
+        return None
+
+    def _field_derefs(self, methods, fq):
+        derefs = []
+        for m in methods:
+            pm = m.parent_map()
+            for n in m.all_nodes():
+                if n.get('k') == 'member' and n.get('q') == fq and n.get('field'):
+                    p = pm.get(n['id'])
+                    while p is not None and m.nodes[p].get('k') in ('icast', 'wrap', 'cast'):
+                        p = pm.get(p)
+                    pn = m.nodes.get(p) if p is not None else None
+                    if pn is None:
+                        continue
+                    if (pn.get('k') == 'unop' and pn['op'] == '*') or (pn.get('k') == 'member' and pn.get('arrow')) or \
+                            (pn.get('k') == 'call' and pn.get('arrow')) or pn.get('k') == 'index':
+                        derefs.append((m, n))
+                    elif pn.get('k') == 'unop' and pn['op'] in ('++', '--'):
+                        # *m_data++ : postfix increment below a dereference
+                        pp = pm.get(p)
+                        while pp is not None and m.nodes[pp].get('k') in ('icast', 'wrap', 'cast'):
+                            pp = pm.get(pp)
+                        if pp is not None and m.nodes[pp].get('k') == 'unop' and m.nodes[pp]['op'] == '*':
+                            derefs.append((m, n))
+        return derefs
